@@ -2,11 +2,13 @@
 
    input of selector 1:
      ippvs plr ippl dra                       four gate flags
+     phase nodeName? deleting?                the pod's lifecycle position (NewTaskInfo)
      n (name tracked plsup)*n                 classification of the names >= 5
      pod                                      see [dPod]
    a quantity is two tokens (v, e): the amount v * 10^-e, 0 <= e <= 9.
    output: tag 1 GetPodResourceRequest, tag 2 GetPodResourceWithoutInitContainers,
-           tag 3 upstream PodRequests (exact quantities), tag 4 NewResource of it.
+           tag 3 upstream PodRequests (exact quantities), tag 4 NewResource of it,
+           tag 5/6/7 NewTaskInfo(pod).Resreq / .InitResreq / .BestEffort.
    A quantity in an OUTPUT list is (name, whole units, nano remainder). *)
 From stdpp Require Import gmap.
 From Coq Require Import ZArith List.
@@ -52,25 +54,33 @@ Definition plsup_of (t : gmap positive (bool * bool)) (k : positive) : bool :=
 Definition eRl (l : rl) : list Z :=
   eList (fun kv => [Zpos (fst kv); snd kv / nano_per_unit; snd kv mod nano_per_unit]) (sort_kv (map_to_list l)).
 
+Definition dMeta : dec pod_meta :=
+  let* ph := dZ in let* nd := dBool in let* del := dBool in
+  if (ph <? 0) || (5 <? ph) then fail else ret (mkMeta ph nd del).
+
 Definition dCase :=
   let* ippvs := dBool in let* plr := dBool in let* ippl := dBool in let* dra := dBool in
-  let* t := dNames in let* p := dPod in ret (ippvs, plr, ippl, dra, t, p).
+  let* m := dMeta in
+  let* t := dNames in let* p := dPod in ret (ippvs, plr, ippl, dra, m, t, p).
 
 Definition entry (sel : Z) (toks : list Z) : list Z :=
   match sel with
   | 1 => match run_dec dCase toks with
-         | Some (ippvs, plr, ippl, dra, t, p) =>
+         | Some (ippvs, plr, ippl, dra, m, t, p) =>
            let tr := tracked_of t in let ps := plsup_of t in
            let up := k8s_pod_requests ps (opts_of ippvs plr ippl dra) p in
            tag 1 ++ eRes (vc_pod_request tr ps ippvs plr ippl dra p) ++
            tag 2 ++ eRes (vc_pod_request_noinit tr ps ippvs plr ippl p) ++
            tag 3 ++ eRl up ++
-           tag 4 ++ eRes (new_resource tr up)
+           tag 4 ++ eRes (new_resource tr up) ++
+           tag 5 ++ eRes (task_resreq tr ps ippvs plr ippl dra m p) ++
+           tag 6 ++ eRes (task_init_resreq tr ps ippvs plr ippl dra m p) ++
+           tag 7 ++ eBool (task_best_effort tr ps ippvs plr ippl dra m p)
          | None => bad_input end
   (* laws on the implementations' own results: must answer [1] *)
   | 101 => match run_dec (let* up := dRes in let* vc := dRes in let* rq := dRes in let* irq := dRes in
-                          ret (up, vc, rq, irq)) toks with
-           | Some (up, vc, rq, irq) => eBool (law_task_request up vc rq irq)
+                          let* be := dBool in ret (up, vc, rq, irq, be)) toks with
+           | Some (up, vc, rq, irq, be) => eBool (law_task_reservation up vc rq irq be)
            | None => bad_input end
   | 102 => match run_dec (let* up := dRes in let* vc := dRes in let* rq := dRes in let* irq := dRes in
                           ret (up, vc, rq, irq)) toks with
